@@ -6,7 +6,7 @@ COMMON = -std=c++17 -DYOMM2_VERIF_SIM -I$(REPO)/include -Isim -Wno-deprecated-de
 ASAN_FLAGS = $(COMMON) -O1 -gline-tables-only -fno-omit-frame-pointer -fsanitize=address,undefined -fno-sanitize-recover=undefined
 
 POLS = dbg rel vec map ind cind thr dfr dfv sdbg srel
-GENERIC = common plan exec gen main extras
+GENERIC = common plan exec gen main extras tw
 HDRS = $(wildcard sim/*.hpp) $(shell find $(REPO)/include -name '*.hpp')
 
 ASAN_OBJS = $(addprefix $(B)/asan/,$(addsuffix .o,$(GENERIC) $(addprefix pol_,$(POLS))))
